@@ -32,6 +32,9 @@ var prop = vlib.Prop[*Case]{
 		"a quarter of the states are reached through a transaction that was applied and cancelled; precondition (else discarded and counted): the device holds the model merge on every path of the re-applied intents (a running mirror that disagrees with the device is data-server's own doing and no excuse); " +
 		"non-trivial = the re-submitted subset contains a fully shadowed or a partly shadowed (mixed) intent; distinct = distinct case JSON",
 	Gen: func(t *rapid.T) *Case {
+		if k := os.Getenv("VERIF_C09_LOOP"); k != "" {
+			return genLoop(t, k)
+		}
 		uni := rapid.SampledFrom([]*vlib.Universe{vlib.UniPlainNA, vlib.UniPlainNA, vlib.UniChoiceNoList}).Draw(t, "universe")
 		o := vlib.HistGenOpts{Universe: uni, MinSteps: 1, MaxSteps: 8, WithInit: true, AllowOrphan: true}
 		c := &Case{Hist: vlib.GenHistCase(t, o)}
@@ -51,6 +54,12 @@ var prop = vlib.Prop[*Case]{
 }
 
 func Exec(c *Case) (nontrivial bool, labels []string, fail *vlib.Failure) {
+	if strings.HasPrefix(c.Hist.GNMI, "nc:") {
+		return vlib.ExecNCLoop(c.Hist, "C09", true)
+	}
+	if c.Hist.Loop {
+		return execGNMILoop(c)
+	}
 	st := vlib.GetStats("C09")
 	ctx := context.Background()
 	env := vlib.MustEnv()
